@@ -6,6 +6,7 @@ CONSTANTS
     Loop = "copy"
     Family = "slowaccum"
     Tier = "quick"
+    Reporter = "contract"
     EmitOn = FALSE
 INIT Init
 NEXT Next
